@@ -130,7 +130,7 @@ pub fn run_check(prop: &PropDef, tier: Tier) -> i32 {
             st.wall_s,
             if st.cap_hit { " CAP HIT" } else { "" }
         );
-        for (v, points, trace) in &st.violations {
+        for (v, points, trace) in st.violations.iter().take(5) {
             let is_known = known
                 .known
                 .iter()
@@ -170,7 +170,7 @@ pub fn run_check(prop: &PropDef, tier: Tier) -> i32 {
     for (st, bounds) in &all {
         ev += st.evaluations;
         nt += st.distinct_nontrivial.max(st.nt_evaluations);
-        states += if st.states > 0 { st.states } else { st.distinct_digests };
+        states += if st.states > 0 { st.states } else { st.evaluations.max(st.distinct_digests) };
         trans += st.transitions.max(st.evaluations);
         traces += st.evaluations;
         det += st.determinism_replays;
@@ -205,7 +205,7 @@ pub fn run_check(prop: &PropDef, tier: Tier) -> i32 {
             "caps_hit": caps,
             "determinism_replays": det,
             "parts": parts_json,
-            "explanation": "states = distinct observable-state fingerprints (or distinct observation digests / enumerated inputs for enumeration parts); transitions = choice points executed; traces_validated_against_impl = executions of the real code judged by the oracle (there is no separate model: every trace is an implementation trace)."
+            "explanation": "states = distinct observable-state fingerprints taken at choice points (for enumeration parts, which have no environment state: the number of enumerated inputs); transitions = choice points executed; traces_validated_against_impl = executions of the real code judged by the oracle (there is no separate model: every trace is an implementation trace)."
         },
         "assumptions": prop.assumptions,
         "wall_s": t0.elapsed().as_secs_f64(),
